@@ -90,4 +90,21 @@ def PacketRunOf (cfg : Pipe.Cfg) (l : Link) (fl : Filler) (rs : List Gen.Req) (o
   (∀ i, RndOK (o.rnd i)) ∧ o.inp.reqs = pipeReqs l fl o.rnd rs ∧ 0 < o.inp.n ∧
   Pipe.ReachableNC cfg o.inp o.st ∧ (Pipe.Terminated o.st ∨ o.st.done = true)
 
+/-! ### reading the error streams (C13 composed) -/
+
+/-- the causes of the request-error records among what the packet pipeline's error consumer received: the record
+    made for the request with identity `id` carries that request's `Err` (`causeAt`); build errors, write errors
+    and receiver errors are other records -/
+def reqCauses (rs : List Gen.Req) (errs : List Pipe.Pkt) : List (Option Gen.Cause) :=
+  errs.filterMap (fun p => match p with
+    | .err (.req q) => some (causeAt rs q.id)
+    | _ => none)
+
+/-- the causes among the errors the generic engine's workers sent (identities of requests): an error entry's
+    record carries its cause; the record of a failed `Scan` (an error-free request) carries none of them -/
+def sentCauses (rs : List Gen.Req) (ids : List Nat) : List Gen.Cause := ids.filterMap (causeAt rs)
+
+/-- the receiver reports receiver errors -/
+def RcvErrsOK (inp : Pipe.Input) : Prop := ∀ e ∈ inp.rcvErrs, ∃ k, e = Pipe.Err.rcv k
+
 end SxVerif.Spec.Compose
